@@ -1004,7 +1004,13 @@ class SQLCache(CacheMixin):
     def store_metadata(self, metadata):
         if self.store_metadata_enabled:
             key = metadata["query"]
-            metadata = json.dumps(metadata)
+            try:
+                metadata = json.dumps(metadata)
+            except:
+                # metadata that can not be written (e.g. a state variable holding a set) is not kept;
+                # as with the other caches this must not make the evaluation fail
+                logging.exception(f"Cache writing error: {key}")
+                return False
 
             self._available_keys = None
             if self.delete_before_insert:
